@@ -121,10 +121,24 @@ HOp make_load(RunCtx& ctx, Rng& rng, int session)
     CallSpec& c = op.call;
     int k = rng.below(100);
     bool xml = true;
+    bool old_syntax = false;
     if (k < 30 && !corpus().empty()) {
         auto& m = corpus()[rng.below((uint32_t)corpus().size())];
         c.bytes = m.second;
         op.what = "corpus:" + m.first;
+    } else if (rng.chance(0.07)) {
+        // a model in the old (3.x) syntax, to be loaded with newxta == false
+        Model m = gen_old_model(rng);
+        old_syntax = true;
+        if (rng.chance(0.5)) {
+            XmlKnobs kn = draw_knobs(rng);
+            c.bytes = render_xml(m, kn, rng);
+            op.what = "generated-old-xml";
+        } else {
+            c.bytes = render_xta(m);
+            op.what = "generated-old-xta";
+            xml = false;
+        }
     } else {
         GenCfg cfg = draw_cfg(rng);
         if (ctx.simplify & SIMP_SMALLMODEL) {
@@ -163,7 +177,7 @@ HOp make_load(RunCtx& ctx, Rng& rng, int session)
         c.entry = rng.chance(0.5) ? E_XTA_STR : E_XTA_FILE;
     int b = rng.below(100);
     c.backend = b < 70 ? B_DOC : (b < 85 ? B_BUILDER : (b < 95 ? B_PRETTY : B_TIGA));
-    c.newxta = !rng.chance(0.1);
+    c.newxta = old_syntax ? false : !rng.chance(0.1);
     c.sched = ctx.draw_sched(rng, false);
     return op;
 }
